@@ -52,6 +52,42 @@ pub struct Outer {
     pub list: Vec<S>,
     pub m: BTreeMap<String, Option<i32>>,
 }
+// borrowed fields inside containers that serde reads through `deserialize_any` (its `Content` buffer): the deserializer must
+// hand BORROWED strings to such visitors, or the borrowed field behind them cannot be filled
+#[derive(Serialize, Deserialize, PartialEq, Debug)]
+pub struct InnerB<'a> {
+    #[serde(borrow)]
+    pub s: &'a str,
+    pub n: u8,
+}
+#[derive(Serialize, Deserialize, PartialEq, Debug)]
+pub struct FlatB<'a> {
+    pub id: u8,
+    #[serde(flatten, borrow)]
+    pub inner: InnerB<'a>,
+}
+#[derive(Serialize, Deserialize, PartialEq, Debug)]
+#[serde(untagged)]
+pub enum UntB<'a> {
+    S {
+        #[serde(borrow)]
+        s: &'a str,
+    },
+    N {
+        n: u8,
+    },
+}
+#[derive(Serialize, Deserialize, PartialEq, Debug)]
+#[serde(tag = "t")]
+pub enum TagB<'a> {
+    A {
+        #[serde(borrow)]
+        s: &'a str,
+    },
+    B {
+        n: u8,
+    },
+}
 #[derive(Serialize, Deserialize, PartialEq, Debug)]
 pub struct Borrowed<'a> {
     pub id: u32,
@@ -162,6 +198,9 @@ pub fn run_case(id: u32, t: &[u8]) -> String {
         47 => both!((serde_bytes::ByteBuf, String, serde_bytes::ByteBuf), t, canon),
         48 => both!(Vec<serde_bytes::ByteBuf>, t, canon),
         49 => both!(BTreeMap<String, serde_bytes::ByteBuf>, t, canon),
+        50 => both!(FlatB, t, canon),
+        51 => both!(UntB, t, canon),
+        52 => both!(TagB, t, canon),
         _ => "bad-type".into(),
     }
 }
@@ -537,6 +576,21 @@ pub fn gen_tagged(seed: u64, thorough: bool, tag: &str) {
     for &id in IDS {
         for s in shapes {
             out.line(&format!("{} {} {}", tag, id, hex(s.as_bytes())));
+        }
+    }
+    // borrowed fields behind flatten / untagged / internally tagged containers
+    if tag == "c04" {
+        let strs: &[&str] = &["\"xyz\"", "\"\"", "\"x\\ny\"", "\"caf\u{e9}\"", "\"a\\u0041\"", "1", "null", "\"0123456789012345678901234567890123456789\""];
+        for sv in strs {
+            for (id, docs) in [
+                (50u32, vec![format!("{{\"id\":1,\"s\":{sv},\"n\":2}}"), format!("{{\"s\":{sv},\"n\":2,\"id\":1}}"), format!("{{\"id\":1,\"n\":2}}")]),
+                (51u32, vec![format!("{{\"s\":{sv}}}"), format!("{{\"n\":3}}"), format!("{{\"s\":{sv},\"z\":0}}")]),
+                (52u32, vec![format!("{{\"t\":\"A\",\"s\":{sv}}}"), format!("{{\"s\":{sv},\"t\":\"A\"}}"), format!("{{\"t\":\"B\",\"n\":4}}")]),
+            ] {
+                for d in docs {
+                    out.line(&format!("{} {} {}", tag, id, hex(d.as_bytes())));
+                }
+            }
         }
     }
     // several byte strings with invalid UTF-8 in one document (raw bytes, `from_slice` only), with text strings between them
